@@ -30,6 +30,7 @@ func (f *Frame) execInstr(in ssa.Instruction, st *State, reach Term) {
 		f.vals[in] = r
 		pt := in.Type().Underlying().(*types.Pointer).Elem()
 		c.store(st, c.objLoc(r, pt), c.zero(pt))
+		c.initGhosts(st, r, pt)
 	case *ssa.BinOp:
 		f.vals[in] = c.define(f.name(in.Name()), f.binop(in, reach))
 	case *ssa.UnOp:
